@@ -247,6 +247,8 @@ def main() -> int:
     lay_bases = [prog.generate((PROP, sd, "lay", i), "clean")["source"] for i in range(50 if t == "quick" else 700)]
     lay_bases += corpus.string_scripts(rng_for(PROP, sd, "s"), 12 if t == "quick" else 120) + corpus.lcd_scripts(rng_for(PROP, sd, "l"), 4 if t == "quick" else 40)
     lay_bases += corpus.promotion_scripts(rng_for(PROP, sd, "p"), 10 if t == "quick" else 100) + corpus.device_scripts(rng_for(PROP, sd, "d"), 10 if t == "quick" else 100) + readme_examples()
+    from .C02 import poly_program
+    lay_bases += [poly_program(rng_for(PROP, sd, "poly", i)) for i in range(30 if t == "quick" else 300)]
     nvar = 8 if t == "quick" else 20
     for case, st, out in run_cases(case_layout, [(i, sd, s, nvar) for i, s in enumerate(lay_bases)]):
         if st != "ok":
@@ -269,6 +271,7 @@ def main() -> int:
     # ---- (c) black-box differential on re-laid-out programs
     n_fw = 24 if t == "quick" else 300
     fw_cases = [(i, sd, prog.generate((PROP, sd, "fwl", i), "clean")["source"]) for i in range(n_fw)]
+    fw_cases += [(n_fw + i, sd, poly_program(rng_for(PROP, sd, "polyfw", i))) for i in range(n_fw // 2)]
     for case, st, out in run_cases(case_diff, fw_cases):
         if st != "ok":
             rep.inconclusive_because(f"fw layout case failed: {out[-300:]}")
